@@ -20,6 +20,8 @@ so "which core runs this op" is known by construction, independently of snaxc/ut
   ["dealloc", k]                     memref.dealloc of the k-th live alloc of the current block (neutral)
   ["for", body]                      scf.for %i = 0 to %n<loop id> step 1 (trip count is a run-time input)
   ["if", cond, then, else]           scf.if; cond = ["p", k] (i1 argument) | ["iv", pred, c] (cmpi on the innermost index value)
+  (strategy-only shapes "scoped" = alloc; ops on it; dealloc and "diamond" = producer; scf.if with consumers in either/both
+   branches, optional barrier in one branch; consumer after it -- both expand to the statements above)
   ["region", body]                   "test.op"() ({ body; "test.termop"() })  (neutral op with a region, as in upstream dispatch_regions.mlir)
 
 cls is 0 (16-element values: arguments, allocs) or 1 (4-element views). A ref is an int taken modulo the number of
@@ -54,6 +56,8 @@ def _stmt_list(draw, depth, budget, flags, in_loop=False, min_stmts=1):
         kinds += ["use"] * flags["w_use"] + ["op"] * flags["w_op"] + ["call"] * flags["w_call"] + ["bar"] * flags["w_bar"]
         kinds += ["dealloc"] * flags["w_dealloc"]
         kinds += ["scoped"] * flags.get("w_scoped", 0)
+        if depth > 0:
+            kinds += ["diamond"] * flags.get("w_diamond", 0)
         if depth > 0:
             kinds += ["for"] * flags["w_for"]
             kinds += ["if"] * flags["w_if"] + ["region"] * flags["w_region"]
@@ -101,6 +105,37 @@ def _stmt_list(draw, depth, budget, flags, in_loop=False, min_stmts=1):
             if draw(st.integers(0, 4)) == 0:
                 out.append(["bar"])
             out.append(["dealloc", -1])
+        elif k == "diamond":
+            # producer on one core before an scf.if; consumers on the other core inside either/both branches and/or after it;
+            # optionally a pre-existing barrier in one branch only
+            buf, other = draw(_ref), draw(_ref)
+            flv = draw(st.sampled_from(flags["flavors"]))
+            dm_first = draw(st.booleans())
+
+            def prod():
+                return ["copy", 0, other, buf] if dm_first else ["gen", flv, 0, [other], buf]
+
+            def cons():
+                if draw(st.booleans()):
+                    return ["gen", flv, 0, [buf], other] if dm_first else ["copy", 0, buf, other]
+                return ["gen", flv, 0, [other], buf] if dm_first else ["copy", 0, other, buf]
+
+            where = draw(st.sampled_from([1, 2, 3, 3, 3, 4, 5, 6, 7, 7]))  # bit0 then, bit1 else, bit2 after
+            th = [cons()] if where & 1 else []
+            el = [cons()] if where & 2 else []
+            barb = draw(st.sampled_from([0, 0, 1, 2]))
+            if barb == 1:
+                th.insert(draw(st.integers(0, len(th))), ["bar"])
+            elif barb == 2:
+                el.insert(draw(st.integers(0, len(el))), ["bar"])
+            if not th:
+                th = [["use", 0, other]] if el else [cons()]
+            cond = draw(st.one_of(st.tuples(st.just("p"), st.integers(0, 2)).map(list),
+                                  st.tuples(st.just("iv"), st.sampled_from([0, 1, 2, 4]), st.integers(0, 2)).map(list)))
+            out.append(prod())
+            out.append(["if", cond, th, el])
+            if where & 4:
+                out.append(cons())
         elif k == "use":
             out.append(["use", draw(st.integers(0, 1)), draw(_ref)])
         elif k == "op":
@@ -138,8 +173,8 @@ def count_loops(stmts):
 
 C14_FLAGS = dict(w_copy=4, w_gen=4, w_view=2, w_alloc=1, w_use=1, w_op=2, w_call=1, w_bar=1, w_dealloc=0, w_for=3, w_if=3,
                  w_region=1, flavors=[0, 0, 1, 2, 3])
-C13_FLAGS = dict(w_copy=6, w_gen=6, w_view=3, w_alloc=2, w_use=1, w_op=0, w_call=0, w_bar=1, w_dealloc=2, w_for=8, w_if=0,
-                 w_region=0, w_scoped=2, flavors=[0, 0, 1, 2, 3])
+C13_FLAGS = dict(w_copy=6, w_gen=6, w_view=3, w_alloc=2, w_use=1, w_op=0, w_call=0, w_bar=1, w_dealloc=2, w_for=8, w_if=4,
+                 w_region=0, w_scoped=2, w_diamond=3, flavors=[0, 0, 1, 2, 3])
 
 
 @st.composite
@@ -175,8 +210,9 @@ def program_c13(draw, tier="quick"):
     budget = 8 if tier == "quick" else 12
     body = draw(_stmt_list(depth, budget, C13_FLAGS, min_stmts=3))
     nloops = count_loops(body)
-    return dict(nb_cores=draw(st.sampled_from([2, 3, 3])), nargs=draw(st.integers(1, 2)), blocks=[body], terms=[], ret=0,
-                inputs=draw(_inputs(nloops, 2, [0, 1, 2, 2, 3, 3])))
+    inputs = draw(_inputs(nloops, 2, [0, 1, 2, 2, 3, 3]))
+    inputs[1]["p"] = [1 - v for v in inputs[0]["p"]]  # every i1 argument takes both outcomes across the two vectors
+    return dict(nb_cores=draw(st.sampled_from([2, 3, 3])), nargs=draw(st.integers(1, 2)), blocks=[body], terms=[], ret=0, inputs=inputs)
 
 
 # ------------------------------------------------------------------------------------ builder
@@ -232,7 +268,7 @@ def build(recipe, func_name="main") -> Built:
 
     derived_root: dict[str, str] = {}  # value name -> name of the alloc/arg it is derived from
 
-    def emit(stmts, sc: Scope, ind, depth, prev_kind=None):
+    def emit(stmts, sc: Scope, ind, depth, in_branch=False):
         out = []
         pad = "  " * ind
         b.max_depth = max(b.max_depth, depth)
@@ -344,6 +380,8 @@ def build(recipe, func_name="main") -> Built:
                 t = tag(NEUTRAL, "barrier")
                 out.append(f'{pad}"snax.cluster_sync_op"() {{tag = {t} : i32}} : () -> ()')
                 b.features.add("pre_barrier")
+                if in_branch:
+                    b.features.add("pre_barrier_in_branch")
             elif k == "dealloc":
                 if sc.allocs:
                     nm = sc.allocs.pop(s[1] % len(sc.allocs))
@@ -358,7 +396,7 @@ def build(recipe, func_name="main") -> Built:
                 ub = f"%n{lid}"
                 loop_args.append(ub)
                 iv = fresh("i")
-                body = emit(s[1], sc.child(iv), ind + 1, depth + 1)
+                body = emit(s[1], sc.child(iv), ind + 1, depth + 1, in_branch)
                 out.append(f'{pad}"scf.for"(%c0, {ub}, %c1) ({{')
                 out.append(f'{pad}^bb0({iv}: index):')
                 out.extend(body)
@@ -376,8 +414,8 @@ def build(recipe, func_name="main") -> Built:
                     out.append(f'{pad}{c} = "arith.cmpi"({sc.ivs[-1]}, {kc}) <{{predicate = {cond[1]} : i64}}> : (index, index) -> i1')
                 else:
                     c = f"%p{cond[1] % 3}"
-                thl = emit(th, sc.child(), ind + 1, depth + 1)
-                ell = emit(el, sc.child(), ind + 1, depth + 1) if el else None
+                thl = emit(th, sc.child(), ind + 1, depth + 1, True)
+                ell = emit(el, sc.child(), ind + 1, depth + 1, True) if el else None
                 out.append(f'{pad}"scf.if"({c}) ({{')
                 out.extend(thl)
                 out.append(f'{pad}  "scf.yield"() : () -> ()')
@@ -387,11 +425,15 @@ def build(recipe, func_name="main") -> Built:
                     out.append(f'{pad}  "scf.yield"() : () -> ()')
                 out.append(f'{pad}}}) : (i1) -> ()')
                 b.features.add("if")
+                if el:
+                    b.features.add("if_else")
+                if sc.ivs:
+                    b.features.add("if_in_loop")
                 if depth >= 1:
                     b.features.add("nested")
             elif k == "region":
                 t = tag(NEUTRAL, "region")
-                body = emit(s[1], sc.child(), ind + 1, depth + 1)
+                body = emit(s[1], sc.child(), ind + 1, depth + 1, in_branch)
                 out.append(f'{pad}"test.op"() ({{')
                 out.extend(body)
                 out.append(f'{pad}  "test.termop"() : () -> ()')
@@ -399,6 +441,8 @@ def build(recipe, func_name="main") -> Built:
                 b.features.add("region_op")
             if this_kind is not None:
                 b.features.add(this_kind)
+                if in_branch:
+                    b.features.add("dispatchable_in_branch")
                 if depth >= 1:
                     b.features.add("nested_dispatchable")
                 if last_kind is not None:
